@@ -26,4 +26,12 @@ typedef struct spi_transaction_t {
 } spi_transaction_t;
 typedef void *spi_device_handle_t;
 esp_err_t spi_device_polling_transmit(spi_device_handle_t handle, spi_transaction_t *trans_desc);
+/* part of the real API; the bundled backend does not use them, a changed one might */
+#ifndef portMAX_DELAY
+#define portMAX_DELAY 0xffffffffUL
+#endif
+#include "freertos/FreeRTOS.h"
+esp_err_t spi_device_acquire_bus(spi_device_handle_t device, TickType_t wait);
+void spi_device_release_bus(spi_device_handle_t dev);
+esp_err_t spi_device_transmit(spi_device_handle_t handle, spi_transaction_t *trans_desc);
 #endif
